@@ -109,7 +109,24 @@ type hist struct {
 }
 
 func (h *hist) logf(format string, args ...any) {
-	h.ops = append(h.ops, fmt.Sprintf(format, args...))
+	// names with control bytes (edge-bucket namespaces) are rendered escaped: the report stays plain text
+	h.ops = append(h.ops, plainText(fmt.Sprintf(format, args...)))
+}
+
+// plainText escapes the control bytes (not the line feed) of a report line.
+func plainText(s string) string {
+	if strings.IndexFunc(s, func(r rune) bool { return (r < 0x20 && r != '\n') || r == 0x7f }) < 0 {
+		return s
+	}
+	var sb strings.Builder
+	for _, r := range s {
+		if (r < 0x20 && r != '\n') || r == 0x7f {
+			fmt.Fprintf(&sb, "\\x%02x", r)
+		} else {
+			sb.WriteRune(r)
+		}
+	}
+	return sb.String()
 }
 
 // guarded runs one step of the history. A run-time error inside lindb (index out of range, nil
@@ -129,7 +146,7 @@ func (h *hist) guarded(fn func()) {
 
 func (h *hist) fatalf(format string, args ...any) {
 	h.t.Helper()
-	h.t.Fatalf("%s\nhistory (%d index databases, []byte arguments in reused buffers, overwritten after each call: %s):\n  %s", clip(fmt.Sprintf(format, args...), 6000), h.nIdx, h.w.mode, strings.Join(h.ops, "\n  "))
+	h.t.Fatalf("%s\nhistory (%d index databases, []byte arguments in reused buffers, overwritten after each call: %s):\n  %s", plainText(clip(fmt.Sprintf(format, args...), 6000)), h.nIdx, h.w.mode, strings.Join(h.ops, "\n  "))
 }
 
 var (
@@ -323,6 +340,13 @@ func (h *hist) query(label string) {
 	}
 	h.classes["query"]++
 	h.classes["query-"+q.Kind]++
+	if q.Kind == qNamespaces {
+		for _, ns := range out.Names {
+			if c := nsBucketClass(ns); c != "namespace-bucket=ascii" {
+				h.classes["query-show-namespaces-lists-"+c]++
+			}
+		}
+	}
 	if out.Names != nil && h.dur.Meta > 0 {
 		h.classes["query-suggest-with-persisted-dictionaries"]++
 	}
@@ -1155,6 +1179,9 @@ func runHistoryOpts(t *rapid.T, thorough, faults bool) {
 		h.flt = newFaultState(t)
 	}
 	h.u = drawUniverse(t)
+	for _, ns := range h.u.ns {
+		h.classes["universe-"+nsBucketClass(ns)]++
+	}
 	defer debug.SetPanicOnFault(debug.SetPanicOnFault(true))
 	h.w = newWire(rapid.SampledFrom(wireModes).Draw(t, "wireMode"))
 	h.im = &crash.Imager{Root: h.root, OutDir: filepath.Join(dir, "img"), OnPoint: h.onPoint}
